@@ -52,6 +52,7 @@ fn opts_for(case: &Case) -> Opts {
         message_cache: case.knobs.cache_enabled,
         encryption: case.knobs.encryption,
         http_arm: case.http_arm,
+        disk_faults: case.disk_fault_rate > 0.0,
     }
 }
 
@@ -90,6 +91,12 @@ pub fn run_sequential(case: &Case) -> RunOutput {
         }
         for op in &case.setup {
             h.step(op).await;
+        }
+        if case.disk_fault_rate > 0.0 {
+            let mut fs = w.sim.inner.fs.borrow_mut();
+            fs.random_rate = case.disk_fault_rate;
+            fs.random_classes = vec![crate::rt::PathClass::Log, crate::rt::PathClass::Index];
+            fs.armed = false;
         }
         if case.ops.is_empty() {
             let mut gen = Gen::new(case.seed, case.gen.clone());
